@@ -73,6 +73,24 @@ def generate(seed, tier='quick'):
             for b in pts:
                 for op in FBIN:
                     add(ty, op, hex(a), hex(b))
+        # integer operands of the conversions from integers: 64-bit values that are not bit patterns of the type,
+        # around the points where rounding to the mantissa is decided (exact midpoints, one above, one below; a
+        # conversion through a wider float rounds those twice)
+        M = 64
+        ints = [0, 1, 2 ** 24, 2 ** 24 + 1, 2 ** 24 + 3, 2 ** 53, 2 ** 53 + 1, 2 ** 53 + 3, 2 ** 63, 2 ** 63 - 1, 2 ** 63 + 1,
+                2 ** 64 - 1, 2 ** 64 - 2 ** 10, 2 ** 64 - 2 ** 39, 2 ** 64 - 2 ** 39 - 1]
+        for mant in (24, 53):
+            for _ in range(6 if tier == 'quick' else 60):
+                top = rng.randrange(mant + 2, M + 1)                  # bit length of the integer
+                hi = (1 << (mant - 1)) | rng.randrange(1 << (mant - 1))  # the mantissa kept
+                half = 1 << (top - mant - 1)
+                base = hi << (top - mant)
+                for d in (0, 1, -1, rng.randrange(half) if half > 1 else 0):
+                    ints.append((base + half + d) % 2 ** 64)
+                    ints.append((2 ** 64 - (base + half + d)) % 2 ** 64)
+        for a in ints:
+            for op in ('fromu64', 'fromi64', 'numcast', 'numcasti'):
+                add(ty, op, hex(a))
         for op in CONST:
             add(ty, op, '0')
     for b in range(256):
